@@ -112,6 +112,7 @@ func (e *Engine) verifyFunc(fi *funcInfo, c *FuncContract) (res *FuncResult) {
 		t := Const("in$"+v.Name(), s)
 		st.env[v] = Val{T: t, Typ: v.Type()}
 		st.assume(fc.typeFacts(t, v.Type()))
+		fc.existing(st, t, v.Type())
 	}
 	sig := fc.sig
 	// use the declared parameter objects (Defs) so that body references match
@@ -248,12 +249,116 @@ func (e *Engine) axiomTerm(a *Axiom) (t *Term, err error) {
 		}
 	}
 	t = fc.evalSpecBool(st, a.Expr, sc)
+	addDefPattern(t)
 	// facts produced while evaluating become part of the axiom
 	facts := st.pc.list()
 	if len(facts) > 0 {
 		t = And(append(facts, t)...)
 	}
 	return t, nil
+}
+
+// addDefPattern: for definitional axioms "forall xs :: [cond ==>] f(args) == rhs" use f(args) as the trigger
+// when it mentions every bound variable (keeps instantiation predictable).
+func addDefPattern(t *Term) {
+	if t.Op != "forall" || len(t.Pats) > 0 {
+		return
+	}
+	body := t.Args[0]
+	for body.Op == "=>" {
+		body = body.Args[1]
+	}
+	if body.Op != "=" {
+		return
+	}
+	lhs := body.Args[0]
+	if !lhs.UF || len(lhs.Args) == 0 {
+		return
+	}
+	seen := map[string]bool{}
+	var walk func(x *Term) bool
+	walk = func(x *Term) bool {
+		if x.Op == "var" {
+			seen[x.Lit] = true
+			return true
+		}
+		// patterns may not contain interpreted arithmetic at the top of an argument
+		ok := true
+		for _, a := range x.Args {
+			if !walk(a) {
+				ok = false
+			}
+		}
+		if !x.UF && x.Op != "var" && len(x.Args) > 0 && (x.Op == "+" || x.Op == "-" || x.Op == "*" || x.Op == "div" || x.Op == "mod") {
+			return false
+		}
+		return ok
+	}
+	if !walk(lhs) {
+		return
+	}
+	for _, b := range t.Bound {
+		if !seen[b.Lit] {
+			return
+		}
+	}
+	t.Pats = [][]*Term{{lhs}}
+}
+
+// autoPattern chooses a trigger for a universally quantified formula: an uninterpreted application (or an array
+// read) that mentions every bound variable and has no arithmetic on the path to a bound variable. Formulas
+// without such a term are left to the solver's own heuristics.
+func autoPattern(t *Term) {
+	if t.Op != "forall" || len(t.Pats) > 0 {
+		return
+	}
+	need := map[string]bool{}
+	for _, b := range t.Bound {
+		need[b.Lit] = true
+	}
+	var best *Term
+	bestSize := 1 << 30
+	// returns (set of bound vars, clean, size)
+	var walk func(x *Term) (map[string]bool, bool, int)
+	walk = func(x *Term) (map[string]bool, bool, int) {
+		if x.Op == "var" {
+			if need[x.Lit] {
+				return map[string]bool{x.Lit: true}, true, 1
+			}
+			return map[string]bool{}, true, 1 // variable of an enclosing quantifier
+		}
+		if x.Op == "forall" || x.Op == "exists" {
+			return map[string]bool{}, false, 1
+		}
+		vars := map[string]bool{}
+		clean := true
+		size := 1
+		for _, a := range x.Args {
+			v, c, s := walk(a)
+			for k := range v {
+				vars[k] = true
+			}
+			if !c {
+				clean = false
+			}
+			size += s
+		}
+		arith := x.Op == "+" || x.Op == "-" || x.Op == "*" || x.Op == "div" || x.Op == "mod" || x.Op == "ite" ||
+			x.Op == "and" || x.Op == "or" || x.Op == "not" || x.Op == "=>" || x.Op == "=" || x.Op == "<" || x.Op == "<=" || x.Op == ">" || x.Op == ">="
+		if arith && len(vars) > 0 {
+			clean = false
+		}
+		isApp := x.UF && len(x.Args) > 0 || x.Op == "select" || x.Op == "slen" || x.Op == "sarr"
+		if isApp && clean && len(vars) == len(need) && len(need) > 0 && size < bestSize {
+			best = x
+			bestSize = size
+		}
+		return vars, clean, size
+	}
+	walk(t.Args[0])
+	if best != nil {
+		t.Pats = [][]*Term{{best}}
+	}
 }
 
 // theoryAxioms returns the axioms of the named theories.
@@ -398,50 +503,95 @@ func (e *Engine) discharge(obls []*Obligation, opts runOpts) error {
 			return err
 		}
 	}
-	var wg sync.WaitGroup
-	ch := make(chan *Obligation)
-	for w := 0; w < opts.workers; w++ {
-		wg.Add(1)
-		go func() {
-			defer wg.Done()
-			for o := range ch {
-				ax, _ := getAx(o.Theories)
-				if !o.Cover && o.Goal.IsTrue() {
-					o.Status = "discharged"
-					o.Result = SolveResult{Status: "unsat", Solver: "trivial"}
-					continue
+	run := func(list []*Obligation, workers int, f func(o *Obligation)) {
+		var wg sync.WaitGroup
+		ch := make(chan *Obligation)
+		for w := 0; w < workers; w++ {
+			wg.Add(1)
+			go func() {
+				defer wg.Done()
+				for o := range ch {
+					f(o)
 				}
-				q := renderQuery(ax, o.Assume, o.Goal, nil, false)
-				if o.Cover {
-					r := solve(q, 2, "z3new")
-					o.Result = r
-					if r.Status == "unsat" {
-						o.Status = "unreachable"
-					} else {
-						o.Status = "reachable"
-					}
-					continue
-				}
-				t0 := time.Now()
-				r := solve(q, 3, "cvc5")
-				if r.Status != "unsat" && r.Status != "sat" {
-					r = solve(q, opts.timeout, "")
-				}
-				r.Time = time.Since(t0).Seconds()
-				o.Result = r
-				if r.Status == "unsat" {
-					o.Status = "discharged"
-				} else {
-					o.Status = "failed"
-				}
+			}()
+		}
+		for _, o := range list {
+			ch <- o
+		}
+		close(ch)
+		wg.Wait()
+	}
+	queries := map[*Obligation]string{}
+	var qmu sync.Mutex
+	query := func(o *Obligation) string {
+		qmu.Lock()
+		defer qmu.Unlock()
+		if q, ok := queries[o]; ok {
+			return q
+		}
+		ax, _ := getAx(o.Theories)
+		q := renderQuery(ax, o.Assume, o.Goal, nil, false)
+		queries[o] = q
+		return q
+	}
+	// phase A: every obligation once on cvc5 (fast start-up), fully parallel; covers on z3new
+	run(obls, 16, func(o *Obligation) {
+		if !o.Cover && o.Goal.IsTrue() {
+			o.Status = "discharged"
+			o.Result = SolveResult{Status: "unsat", Solver: "trivial"}
+			return
+		}
+		q := query(o)
+		if o.Cover {
+			r := solve(q, 3, "z3new")
+			o.Result = r
+			if r.Status == "unsat" {
+				o.Status = "unreachable"
+			} else {
+				o.Status = "reachable"
 			}
-		}()
-	}
+			return
+		}
+		t0 := time.Now()
+		r := solve(q, 4, "cvc5")
+		r.Time = time.Since(t0).Seconds()
+		o.Result = r
+		if r.Status == "unsat" {
+			o.Status = "discharged"
+		} else {
+			o.Status = "failed"
+		}
+	})
+	// phase B: the rest raced on all three solvers
+	var rest []*Obligation
 	for _, o := range obls {
-		ch <- o
+		if !o.Cover && o.Status == "failed" && o.Result.Status != "sat" {
+			rest = append(rest, o)
+		}
 	}
-	close(ch)
-	wg.Wait()
+	run(rest, 5, func(o *Obligation) {
+		t0 := time.Now()
+		r := solve(query(o), opts.timeout, "")
+		r.Time = time.Since(t0).Seconds()
+		o.Result = r
+		if r.Status == "unsat" {
+			o.Status = "discharged"
+		}
+	})
+	// phase C: anything still undecided gets one more attempt alone with three times the budget, so that a
+	// loaded machine does not turn a slow proof into an alarm
+	for _, o := range rest {
+		if o.Status == "failed" && o.Result.Status != "sat" {
+			t0 := time.Now()
+			r := solve(query(o), 3*opts.timeout, "")
+			r.Time = time.Since(t0).Seconds()
+			o.Result = r
+			if r.Status == "unsat" {
+				o.Status = "discharged"
+				o.Retried = true
+			}
+		}
+	}
 	return nil
 }
 
